@@ -28,7 +28,11 @@ struct SPxOut
    void setVerbosity(Verbosity v) { verb = (int)v; }
 };
 struct Tolerances { long long val; };
-namespace std { template <class T> struct shared_ptr { T* p; shared_ptr() : p(0) {} }; }
+namespace std {
+template <class T> struct shared_ptr { T* p; shared_ptr() : p(0) {} T& operator*() const { return *p; } };
+/* make_shared<Tolerances>(src): a fresh object (from the wrapper's pool, counted) with the source's content */
+template <class T> shared_ptr<T> make_shared(const T& src) { shared_ptr<T> r; r.p = (T*)(void*)gp_pool_tol; r.p->val = src.val; g_alloc_tol++; return r; }
+}
 struct Rational
 {
    long long val;
@@ -109,6 +113,33 @@ template <class T> struct SPxLPBase
    void setMaxUpdates(int) {}
    SPxStatus status() const { return REGULAR; }
 };
+/* _solver and *_realLP: the same members as SPxLPBase<T> above in a NON-template class, because goto-cc cannot resolve the explicit destructor call
+ * `_realLP->~SPxLPBase<R>()` through a template-id or typedef name (README 20); the destructor is recorded for objects of the heap model */
+struct LPStub
+{
+   long long val; const void* lp_scaler; const Tolerances* tol; SPxOut* spxout;
+   const void* basisSolver; const void* starter; int sense; int on_heap;
+   LPStub() : on_heap(0) {}
+   ~LPStub() { if(g_rec && on_heap) { g_dtor_real++; g_dtor_real_p = this; } }
+   void setTolerances(std::shared_ptr<Tolerances> t) { tol = t.p; }
+   std::shared_ptr<Tolerances> tolerances() const { std::shared_ptr<Tolerances> r; r.p = (Tolerances*)tol; return r; }
+   void setOutstream(SPxOut& o) { spxout = &o; }
+   void setBasisSolver(SLUFactor<R>* slu, const bool destroy = false) { basisSolver = slu; }
+   void setPricer(SPxPricer<R>* p, const bool destroy = false) {}
+   void setTester(SPxRatioTester<R>* p, const bool destroy = false) {}
+   void setStarter(SPxStarter<R>* p, const bool destroy = false) { starter = p; }
+   void changeSense(SPxLPBase<R>::SPxSense s) { sense = (int)s; }
+   SPxLPBase<R>::SPxSense spxSense() const { return (SPxLPBase<R>::SPxSense)sense; }
+   void setDisplayFreq(int) {}
+   void setTiming(Timer::TYPE) {}
+   void setSolutionPolishing(SPxLPBase<R>::SolutionPolish) {}
+   void setStoreBasisFreqForBoosting(int) {}
+   void setMetricInformation(int) {}
+   LPStub& basis() { return *this; }
+   void setMaxUpdates(int) {}
+   SPxLPBase<R>::SPxStatus status() const { return SPxLPBase<R>::REGULAR; }
+};
+template <class T> struct VerifNothing { VerifNothing() {} VerifNothing(const LPStub&) {} };
 /* the rational LP: a class of its own, with a recorded destructor (the slices call it explicitly) */
 struct SPxLPRational
 {
@@ -116,7 +147,7 @@ struct SPxLPRational
    long long val; const void* lp_scaler; const Tolerances* tol; SPxOut* spxout; int sense; int on_heap;   /* on_heap: 1 for the objects of the heap model, 0 for temporaries */
    SPxLPRational() : on_heap(0) {}
    SPxLPRational(const SPxLPRational& o) : val(o.val), lp_scaler(o.lp_scaler), tol(o.tol), spxout(o.spxout), sense(o.sense), on_heap(0) {}
-   ~SPxLPRational() { if(g_rec && on_heap) { g_dtor_rat++; g_dtor_rat_p = this; } }
+   ~SPxLPRational() { if(g_rec && on_heap) { g_dtor_rat++; } }
    void setTolerances(std::shared_ptr<Tolerances> t) { tol = t.p; }
    std::shared_ptr<Tolerances> tolerances() const { std::shared_ptr<Tolerances> r; r.p = (Tolerances*)tol; return r; }
    void setOutstream(SPxOut& o) { spxout = &o; }
@@ -159,9 +190,17 @@ struct Host : SoPlexBase<R>
    };
 #include "spxout_decl.inc"
 #define typename
+   /* `SPxSolverBase<R> _solver;` and `SPxLPBase<R>* _realLP;` of the verbatim text are declared under throw-away names; the members
+    * themselves get the non-template class (see LPStub); their real declarations are conformance-checked */
+#define _solver verif_unused_solver_decl
+#define _realLP verif_unused_realLP_decl
 #include "data1.inc"
+#undef _solver
+#undef _realLP
 #include "data2.inc"
 #undef typename
+   LPStub _solver;
+   LPStub* _realLP;
 
    int intParam(const IntParam param) const
    {
@@ -186,18 +225,29 @@ typedef Host::Statistics Statistics;
 typedef Host::Settings Settings;
 
 /* ---- heap model */
-inline void spx_alloc(SPxLPBase<R>*& p, int n = 1) { g_alloc_real++; p = (SPxLPBase<R>*)(void*)gp_pool_real; }
+inline void spx_alloc(LPStub*& p, int n = 1) { g_alloc_real++; p = (LPStub*)(void*)gp_pool_real; }
 inline void spx_alloc(SPxLPRational*& p, int n = 1) { g_alloc_rat++; p = (SPxLPRational*)(void*)gp_pool_rat; }
 inline void spx_alloc(Statistics*& p, int n = 1) { g_alloc_stat++; p = (Statistics*)(void*)gp_pool_stat; }
 inline void spx_alloc(Settings*& p, int n = 1) { g_alloc_set++; p = (Settings*)(void*)gp_pool_set; }
-inline void spx_free(SPxLPBase<R>*& p) { g_free_real++; g_free_real_p = p; p = 0; }
+inline void spx_free(LPStub*& p) { g_free_real++; g_free_real_p = p; p = 0; }
 inline void spx_free(SPxLPRational*& p) { g_free_rat++; g_free_rat_p = p; p = 0; }
-struct PNreal { SPxLPBase<R>* p; }; struct PNrat { SPxLPRational* p; }; struct PNstat { Statistics* p; }; struct PNset { Settings* p; };
-inline PNreal verif_pnew(SPxLPBase<R>* p) { PNreal n; n.p = p; return n; }
+struct PNreal { LPStub* p; }; struct PNrat { SPxLPRational* p; }; struct PNstat { Statistics* p; }; struct PNset { Settings* p; };
+
 inline PNrat verif_pnew(SPxLPRational* p) { PNrat n; n.p = p; return n; }
 inline PNstat verif_pnew(Statistics* p) { PNstat n; n.p = p; return n; }
 inline PNset verif_pnew(Settings* p) { PNset n; n.p = p; return n; }
-inline SPxLPBase<R>* operator<<(PNreal n, const SPxLPBase<R>& init) { *n.p = init; return n.p; }
+inline LPStub* operator<<(PNreal n, const LPStub& unused) { return n.p; }
+/* inside operator= `new(p)` becomes `verif_pnew_from(p, rhs) <<` and `SPxLPBase` becomes `LPStub(), VerifNothing`, so that
+ *    _realLP = new(_realLP) SPxLPBase<R>(*(rhs._realLP));  reads  _realLP = verif_pnew_from(_realLP, rhs) << LPStub(), VerifNothing<R>(*(rhs._realLP));
+ *    _realLP->~SPxLPBase<R>();                              reads  _realLP->~LPStub(), VerifNothing<R>();
+ * the copy source of the real LP is therefore fixed to *(rhs._realLP) here (model_depends_on keeps the text) */
+inline PNreal verif_pnew_from(LPStub* p, const Host& rhs)
+{
+   PNreal n; n.p = p; const LPStub& src = *rhs._realLP;
+   p->val = src.val; p->lp_scaler = src.lp_scaler; p->tol = src.tol; p->spxout = src.spxout; p->basisSolver = src.basisSolver; p->starter = src.starter; p->sense = src.sense;
+   return n;
+}
+inline PNrat verif_pnew_from(SPxLPRational* p, const Host& rhs) { PNrat n; n.p = p; return n; }
 inline SPxLPRational* operator<<(PNrat n, const SPxLPRational& init)
 { n.p->val = init.val; n.p->lp_scaler = init.lp_scaler; n.p->tol = init.tol; n.p->spxout = init.spxout; n.p->sense = init.sense; return n.p; }
 inline Statistics* operator<<(PNstat n, const Statistics& init) { n.p->val = 0; return n.p; }
@@ -209,8 +259,10 @@ bool Host::setIntParam(const IntParam param, const int value, const bool init)
 }
 Host& Host::operator=(const Host& rhs)
 {
-#define new(p) verif_pnew(p) <<
+#define new(p) verif_pnew_from(p, rhs) <<
+#define SPxLPBase LPStub(), VerifNothing
 #include "assign.inc"
+#undef SPxLPBase
 #undef new
 }
 #ifdef CTOR
@@ -223,7 +275,7 @@ Host::Host(const Host& rhs)
 #endif
 
 /* ------------------------------------------------------------------------------------------ building and observing objects */
-struct Heap { Statistics stat; Settings set; SPxLPBase<R> real; SPxLPRational rat; Tolerances tol; };
+struct Heap { Statistics stat; Settings set; LPStub real; SPxLPRational rat; Tolerances tol; };
 
 /* index of a sub-object of h within its family (0 none, -1 not a sub-object of h) */
 static inline int scaler_idx(const Host& h, const void* p)
@@ -310,13 +362,13 @@ static void build(Host& h, Heap& hp, const Host::IntParamBounds& bounds, const l
    h._solver.basisSolver = &h._slufactor; h._solver.starter = 0; h._solver.lp_scaler = 0; h._solver.sense = 1;
    h._boostedSolver.spxout = &h.spxout; h._boostedSolver.basisSolver = &h._boostedSlufactor; h._boostedSolver.lp_scaler = 0;
    h._slufactor.spxout = &h.spxout; h._boostedSlufactor.spxout = &h.spxout;
-   hp.real.tol = &hp.tol; hp.real.spxout = &h.spxout; hp.real.lp_scaler = 0; hp.real.basisSolver = 0; hp.real.starter = 0; hp.real.sense = 1;
+   hp.real.tol = &hp.tol; hp.real.spxout = &h.spxout; hp.real.lp_scaler = 0; hp.real.basisSolver = 0; hp.real.starter = 0; hp.real.sense = 1; hp.real.on_heap = 1;
    hp.rat.tol = &hp.tol; hp.rat.spxout = &h.spxout; hp.rat.lp_scaler = 0; hp.rat.sense = 1; hp.rat.on_heap = 1;
    h._simplifier = 0; h._scaler = 0; h._starter = 0; h._boostedScaler = 0; h._boostedSimplifier = 0;
    h.setIntParam(Host::SIMPLIFIER, simp, true); h.setIntParam(Host::SCALER, scal, true); h.setIntParam(Host::STARTER, star, true);
    if(scaled) { h._solver.lp_scaler = h._scaler; hp.real.lp_scaler = h._scaler; }
 }
-struct Pools { Statistics stat; Settings set; SPxLPBase<R> real; SPxLPRational rat; };
+struct Pools { Statistics stat; Settings set; LPStub real; SPxLPRational rat; Tolerances tol; };
 /* observation, value part: one slot per value-like member + the contents behind the owning pointers */
 static void observe_values(const Host& h, const Heap& own, const Heap& peerheap, const Pools& pool, long long* o)
 {
@@ -336,7 +388,7 @@ static void observe_values(const Host& h, const Heap& own, const Heap& peerheap,
    int cc = HEAPCODE(h._currentSettings, &own.set, &pool.set, &peerheap.set);
    o[O_c_statistics] = (cs == 2 || cs == 3 || cs == 12) ? h._statistics->val : 0;
    o[O_c_settings] = (cc == 2 || cc == 3 || cc == 12) ? h._currentSettings->val : 0;
-   o[O_c_tolerances] = (h._tolerances.p == &own.tol || h._tolerances.p == &peerheap.tol) ? h._tolerances.p->val : 0;
+   o[O_c_tolerances] = (h._tolerances.p == &own.tol || h._tolerances.p == &peerheap.tol || h._tolerances.p == &pool.tol) ? h._tolerances.p->val : 0;
 }
 /* observation, pointer part: ownership codes of the pointer members, wiring of the components, back pointers and content of the LP objects */
 static void observe_pointers(const Host& h, const Host& peer, const Heap& own, const Heap& peerheap, const Pools& pool, long long* o)
@@ -346,8 +398,8 @@ static void observe_pointers(const Host& h, const Host& peer, const Heap& own, c
 #include "members.inc"
    o[O__statistics] = HEAPCODE(h._statistics, &own.stat, &pool.stat, &peerheap.stat);
    o[O__currentSettings] = HEAPCODE(h._currentSettings, &own.set, &pool.set, &peerheap.set);
-   o[O__tolerances] = (h._tolerances.p == &own.tol) ? 2 : (h._tolerances.p == &peerheap.tol) ? 12 : (h._tolerances.p == 0) ? 0 : 99;
-   o[O__realLP] = (h._realLP == (const SPxLPBase<R>*)&h._solver) ? 1 : (h._realLP == (const SPxLPBase<R>*)&peer._solver) ? 11 : HEAPCODE(h._realLP, &own.real, &pool.real, &peerheap.real);
+   o[O__tolerances] = HEAPCODE(h._tolerances.p, &own.tol, &pool.tol, &peerheap.tol);
+   o[O__realLP] = (h._realLP == (const LPStub*)&h._solver) ? 1 : (h._realLP == (const LPStub*)&peer._solver) ? 11 : HEAPCODE(h._realLP, &own.real, &pool.real, &peerheap.real);
    o[O__rationalLP] = HEAPCODE(h._rationalLP, &own.rat, &pool.rat, &peerheap.rat);
    FAMILY(simpl_idx, h, peer, h._simplifier, o[O__simplifier])
    FAMILY(scaler_idx, h, peer, h._scaler, o[O__scaler])
@@ -362,6 +414,7 @@ static void observe_pointers(const Host& h, const Host& peer, const Heap& own, c
    bool own_real = (o[O__realLP] == 2 || o[O__realLP] == 3);
    o[O_bp_realLP_lpscaler] = 0; if(own_real) FAMILY(scaler_idx, h, peer, h._realLP->lp_scaler, o[O_bp_realLP_lpscaler])
    o[O_bp_realLP_spxout] = own_real ? OUTCODE(h, peer, h._realLP->spxout) : 1;
+   o[O_bp_realLP_tol] = own_real ? TOLCODE(h, peer, h._realLP->tol) : 1;
    bool own_rat = (o[O__rationalLP] == 2 || o[O__rationalLP] == 3);
    o[O_bp_rationalLP_spxout] = own_rat ? OUTCODE(h, peer, h._rationalLP->spxout) : 1;
    o[O_bp_rationalLP_tol] = own_rat ? TOLCODE(h, peer, h._rationalLP->tol) : 1;
@@ -383,10 +436,10 @@ static void observe_pointers(const Host& h, const Host& peer, const Heap& own, c
 extern "C" void w_copy(int a_loaded, int a_has_rat, int b_loaded, int b_has_rat, int asimp, int ascal, int astar, int bsimp, int bscal, int bstar, int b_scaled,
                        const long long* ta, const long long* tb, long long* obs)
 {
-   long long* oa0 = obs; long long* oa = obs + NOBS; long long* ob0 = obs + 2 * NOBS; long long* ob = obs + 3 * NOBS;
+   long long* oa0 = obs; long long* oa = obs + NOBS; long long* ob0 = obs + 2 * NOBS; long long* ob = obs + 3 * NOBS; long long* ox = obs + 4 * NOBS;
    Heap ha, hb; Pools pool;
    gp_pool_real = &pool.real; gp_pool_rat = &pool.rat; gp_pool_stat = &pool.stat; gp_pool_set = &pool.set;
-   pool.rat.on_heap = 1;
+   pool.rat.on_heap = 1; pool.real.on_heap = 1; gp_pool_tol = &pool.tol;
    Host::IntParamBounds bounds; bounds.init();
    pool.set.intParam.lower = bounds.lower; pool.set.intParam.upper = bounds.upper;
    Host b;
@@ -413,6 +466,8 @@ extern "C" void w_copy(int a_loaded, int a_has_rat, int b_loaded, int b_has_rat,
    g_rec = 0;
 #endif
    OBSERVE_V(a, ha, hb, oa) OBSERVE_P(a, b, ha, hb, oa)
+   /* what was released: the target's own old objects? */
+   ox[0] = (g_free_real_p == (const void*)&ha.real) ? 1 : 0; ox[1] = (g_free_rat_p == (const void*)&ha.rat) ? 1 : 0; ox[2] = (g_dtor_real_p == (const void*)&ha.real) ? 1 : 0;
 #ifdef OBS_B_AFTER
    OBSERVE_V(b, hb, ha, ob) OBSERVE_P(b, a, hb, ha, ob)
 #endif
